@@ -884,8 +884,13 @@ def install() -> None:
     if _installed:
         return
     _installed = True
+    import gc
     import logging
     logging.disable(logging.CRITICAL)
+    # The cyclic collector runs __del__ methods (FileLock.__del__ releases a lock = seam calls) at allocation-count-
+    # chosen instants in whichever thread happens to run: a schedule input the simulator does not own. It stays off
+    # for the life of the process; scenarios collect explicitly between runs (common.fresh_scratch), outside any Sim.
+    gc.disable()
 
     import datashard  # noqa
     from datashard import (data_operations, data_structures, disk_utils, file_lock, file_manager,
